@@ -45,8 +45,13 @@ type ReplayFile struct {
 	Notes    []string `json:"notes"`
 }
 
-// RunJobs is the body of every TestVerif<ID> function.
-func RunJobs(id string, jobs []Job) {
+// RunJobs is the body of every TestVerif<ID> function: job i runs in worker i mod n.
+func RunJobs(id string, jobs []Job) { runJobs(id, jobs, false) }
+
+// RunJobsAll runs every job in every worker (for jobs that shard their own tree).
+func RunJobsAll(id string, jobs []Job) { runJobs(id, jobs, true) }
+
+func runJobs(id string, jobs []Job, all bool) {
 	env := GetEnv()
 	res := NewResult(id)
 	defer func() {
@@ -99,7 +104,7 @@ func RunJobs(id string, jobs []Job) {
 			panic(&EngineError{"duplicate job name " + j.Name})
 		}
 		names[j.Name] = true
-		if !env.Mine(i) {
+		if !all && !env.Mine(i) {
 			continue
 		}
 		j.Run(res, env)
